@@ -131,7 +131,8 @@ def attribute(ev, cl, tags, trace):
     if op in ("Reload", "Immutable"):
         return {"C04"} | ({"C06"} if cl in ("noshare", "frame") else set())
     if op == "Eq":
-        return {"C06"} if cl in ("frame", "noshare") else {"C09"}
+        # (a pickle clone that does not compare equal to its original is C11's claim as well)
+        return {"C06"} if cl in ("frame", "noshare") else {"C09"} | (lineage & {"C11"})
     if op == "Read":
         if cl in ("frame", "noshare"):
             return {"C06"}
